@@ -507,6 +507,11 @@ type walker struct {
 	c      *FuncCtx
 	stream types.Object
 	out    bool // writer side
+	// byte-root mode: the "stream" is a []byte local that the function assembles and returns
+	bytes     bool
+	hdrLen    int64
+	hdr       map[int64]*Prim // header prims by byte offset (Put… into the made part of the buffer)
+	hdrBroken string
 }
 
 // Grammar returns the stream grammar of fi's body for the given stream variable.
@@ -517,9 +522,15 @@ func (x *Extractor) Grammar(fi *core.FuncInfo, stream types.Object) []Node {
 	}
 	c := x.Ctx(fi)
 	w := &walker{x: x, c: c, stream: stream, out: x.IsOut(stream.Type())}
+	if isByteSliceType(stream.Type()) {
+		w.bytes, w.out, w.hdr = true, true, map[int64]*Prim{}
+	}
 	var g []Node
 	if fi.Decl.Body != nil {
 		g = w.block(fi.Decl.Body.List)
+	}
+	if w.bytes {
+		g = w.withHeader(g, fi)
 	}
 	x.cache[key] = g
 	if d := os.Getenv("WIRE_DUMP"); d != "" && strings.Contains(core.FuncName(fi.Obj), d) {
@@ -607,6 +618,11 @@ func hasEvents(ns []Node) bool {
 
 // stmt converts one statement; rest = following statements in the same block (for sub-stream scopes).
 func (w *walker) stmt(s ast.Stmt, rest []ast.Stmt) (nodes []Node, stop bool) {
+	if w.bytes {
+		if ns, ok := w.byteStmt(s); ok {
+			return ns, false
+		}
+	}
 	switch v := s.(type) {
 	case *ast.BlockStmt:
 		return w.block(v.List), false
@@ -2512,4 +2528,229 @@ func constInduction(info *types.Info, f *ast.ForStmt) (types.Object, []int64) {
 		return nil, nil
 	}
 	return iv, vals
+}
+
+func isByteSliceType(t types.Type) bool {
+	sl, ok := t.Underlying().(*types.Slice)
+	if !ok {
+		return false
+	}
+	b, ok := sl.Elem().Underlying().(*types.Basic)
+	return ok && b.Kind() == types.Uint8
+}
+
+// ByteRoot: the []byte local a function assembles and returns (every return hands back that variable),
+// for writers that lay out their bytes with encoding/binary instead of a DataOutputX:
+//
+//	buf := make([]byte, 8, n)                       // a made part, filled by Put… at constant offsets
+//	binary.BigEndian.PutUint32(buf[0:4], a)
+//	buf = binary.BigEndian.AppendUint32(buf, w)     // and/or appended to, also in loops
+//	return buf
+func (x *Extractor) ByteRoot(fi *core.FuncInfo) types.Object {
+	if fi == nil || fi.Decl.Body == nil {
+		return nil
+	}
+	sig := fi.Obj.Type().(*types.Signature)
+	if sig.Results().Len() != 1 || !isByteSliceType(sig.Results().At(0).Type()) {
+		return nil
+	}
+	info := fi.Pkg.TypesInfo
+	var root types.Object
+	ok := true
+	ast.Inspect(fi.Decl.Body, func(n ast.Node) bool {
+		switch v := n.(type) {
+		case *ast.FuncLit:
+			return false
+		case *ast.ReturnStmt:
+			if len(v.Results) != 1 {
+				ok = false
+				return true
+			}
+			id, isId := ast.Unparen(v.Results[0]).(*ast.Ident)
+			if !isId {
+				ok = false
+				return true
+			}
+			o := info.ObjectOf(id)
+			if root != nil && root != o {
+				ok = false
+			}
+			root = o
+		}
+		return true
+	})
+	if !ok || root == nil || !isLocalVar(root) || !isByteSliceType(root.Type()) {
+		return nil
+	}
+	return root
+}
+
+func (w *walker) isRootIdent(e ast.Expr) bool {
+	id, ok := ast.Unparen(e).(*ast.Ident)
+	return ok && w.c.Info.ObjectOf(id) == w.stream
+}
+
+// binaryBE: call is binary.BigEndian.<name>(…); returns name.
+func (w *walker) binaryBE(call *ast.CallExpr) string {
+	sel, ok := call.Fun.(*ast.SelectorExpr)
+	if !ok {
+		return ""
+	}
+	inner, ok := ast.Unparen(sel.X).(*ast.SelectorExpr)
+	if !ok || inner.Sel.Name != "BigEndian" {
+		return ""
+	}
+	if id, ok := ast.Unparen(inner.X).(*ast.Ident); ok {
+		if pn, ok := w.c.Info.Uses[id].(*types.PkgName); ok && pn.Imported().Path() == "encoding/binary" {
+			return sel.Sel.Name
+		}
+	}
+	return ""
+}
+
+func (w *walker) bytePrim(call *ast.CallExpr, kind string, arg ast.Expr) *Prim {
+	p := &Prim{Pos: call.Pos(), Kind: kind, Call: call, Arg: arg, Fn: w.c}
+	if tv, ok := w.c.Info.Types[arg]; ok && tv.Value != nil {
+		p.Const = tv.Value
+	} else if cst := w.constOf(arg); cst != nil {
+		p.Const = cst
+	}
+	p.Label = w.x.canonLabel(w.c, arg)
+	return p
+}
+
+var beKinds = map[string]string{"Uint16": "Short", "Uint32": "Int", "Uint64": "Long"}
+
+// byteStmt translates one statement of a byte-root writer; ok=false leaves it to the general walker
+// (loops, ifs and blocks come back here for their bodies).
+func (w *walker) byteStmt(s ast.Stmt) ([]Node, bool) {
+	info := w.c.Info
+	cint := func(e ast.Expr) (int64, bool) {
+		if e == nil {
+			return 0, false
+		}
+		tv, ok := info.Types[e]
+		if !ok || tv.Value == nil {
+			return 0, false
+		}
+		return constant.Int64Val(constant.ToInt(tv.Value))
+	}
+	switch v := s.(type) {
+	case *ast.AssignStmt:
+		if len(v.Lhs) != 1 || len(v.Rhs) != 1 {
+			return nil, false
+		}
+		// buf[k] = byte(x)
+		if ix, ok := ast.Unparen(v.Lhs[0]).(*ast.IndexExpr); ok && w.isRootIdent(ix.X) {
+			off, isC := cint(ix.Index)
+			if !isC {
+				return []Node{&Unknown{Pos: v.Pos(), Reason: "byte store at a non-constant offset of the assembled buffer"}}, true
+			}
+			fake := &ast.CallExpr{Fun: ix, Lparen: v.Pos(), Rparen: v.End()}
+			w.setHdr(off, w.bytePrim(fake, "Byte", v.Rhs[0]), v.Pos())
+			return nil, true
+		}
+		if !w.isRootIdent(v.Lhs[0]) {
+			return nil, false
+		}
+		call, ok := ast.Unparen(v.Rhs[0]).(*ast.CallExpr)
+		if !ok {
+			return []Node{&Unknown{Pos: v.Pos(), Reason: "the assembled buffer is reassigned"}}, true
+		}
+		if id, ok := call.Fun.(*ast.Ident); ok {
+			switch id.Name {
+			case "make":
+				if len(call.Args) >= 2 {
+					if n, isC := cint(call.Args[1]); isC {
+						w.hdrLen = n
+						return nil, true
+					}
+				}
+				return []Node{&Unknown{Pos: v.Pos(), Reason: "the assembled buffer is made with a non-constant length"}}, true
+			case "append":
+				if len(call.Args) >= 2 && w.isRootIdent(call.Args[0]) {
+					var out []Node
+					if call.Ellipsis.IsValid() && len(call.Args) == 2 {
+						out = append(out, w.bytePrim(call, "Bytes", call.Args[1]))
+						return out, true
+					}
+					for _, a := range call.Args[1:] {
+						out = append(out, w.bytePrim(call, "Byte", a))
+					}
+					return out, true
+				}
+			}
+		}
+		if nm := w.binaryBE(call); strings.HasPrefix(nm, "Append") && len(call.Args) == 2 && w.isRootIdent(call.Args[0]) {
+			if kind := beKinds[strings.TrimPrefix(nm, "Append")]; kind != "" {
+				return []Node{w.bytePrim(call, kind, call.Args[1])}, true
+			}
+		}
+		return []Node{&Unknown{Pos: v.Pos(), Reason: "the assembled buffer is reassigned from " + types.ExprString(call.Fun)}}, true
+	case *ast.ExprStmt:
+		call, ok := ast.Unparen(v.X).(*ast.CallExpr)
+		if !ok {
+			return nil, false
+		}
+		if nm := w.binaryBE(call); strings.HasPrefix(nm, "Put") && len(call.Args) == 2 {
+			kind := beKinds[strings.TrimPrefix(nm, "Put")]
+			dst := ast.Unparen(call.Args[0])
+			off := int64(0)
+			if sl, ok := dst.(*ast.SliceExpr); ok {
+				dst = ast.Unparen(sl.X)
+				if sl.Low != nil {
+					o, isC := cint(sl.Low)
+					if !isC {
+						return []Node{&Unknown{Pos: v.Pos(), Reason: "Put at a non-constant offset of the assembled buffer"}}, true
+					}
+					off = o
+				}
+			}
+			if w.isRootIdent(dst) && kind != "" {
+				w.setHdr(off, w.bytePrim(call, kind, call.Args[1]), v.Pos())
+				return nil, true
+			}
+		}
+		return nil, false
+	case *ast.DeclStmt:
+		return nil, false
+	case *ast.ReturnStmt:
+		return []Node{&Ret{Pos: v.Pos()}}, true
+	}
+	return nil, false
+}
+
+func (w *walker) setHdr(off int64, p *Prim, pos token.Pos) {
+	if _, dup := w.hdr[off]; dup {
+		w.hdrBroken = "offset written twice"
+	}
+	w.hdr[off] = p
+}
+
+var kindWidth = map[string]int64{"Byte": 1, "Short": 2, "Int": 4, "Long": 8}
+
+// withHeader puts the prims of the made part of the buffer, in offset order, in front of what was
+// appended; the made part must be covered exactly.
+func (w *walker) withHeader(g []Node, fi *core.FuncInfo) []Node {
+	if w.hdrLen == 0 && len(w.hdr) == 0 {
+		return g
+	}
+	var head []Node
+	at := int64(0)
+	for at < w.hdrLen {
+		p, ok := w.hdr[at]
+		if !ok {
+			w.hdrBroken = fmt.Sprintf("byte %d of the made part is never written", at)
+			break
+		}
+		head = append(head, p)
+		at += kindWidth[p.Kind]
+	}
+	if at != w.hdrLen && w.hdrBroken == "" {
+		w.hdrBroken = "the made part is not covered exactly"
+	}
+	if w.hdrBroken != "" {
+		return append([]Node{&Unknown{Pos: fi.Decl.Pos(), Reason: "assembled buffer: " + w.hdrBroken}}, g...)
+	}
+	return append(head, g...)
 }
